@@ -25,6 +25,8 @@ PROPS = {
                 n_l1=(300, 6000), n_l2=(240, 6000)),
 }
 
+PROPS["C04"] = dict(l1_ops=["rplus", "lplus", "rminus", "lminus", "between"] + l1.ALIASES, l2="C04",
+                    n_l1=(900, 12000), n_l2=(400, 12000), l1_masks=True)
 PROPS["C07"] = dict(l1_ops=["hat", "vee", "generator", "innerWeights", "bracket", "inner", "sqwnorm", "wnorm"],
                     l2="C07", n_l1=(400, 6000), n_l2=(80, 2000))
 
@@ -57,7 +59,7 @@ def case_from_request(pid, line, r):
         return dict(prop=pid, group=group, kind="c03a", reqs=reqs, tags=tags, X=X, Xneg=Xn)
     if pid == "C03" and op == "exp":
         tt = a[:D]
-        return dict(prop=pid, group=group, kind="c03b", stage2="log", tags=tags, t=tt,
+        return dict(prop=pid, group=group, kind="c03b", stage2="logexp", tags=tags, t=tt,
                     reqs=[gen.req(dbg, "o", group, "exp", 0, tt)])
     if pid == "C06" and op in ("rjac", "ljac", "rjacinv", "ljacinv", "smallAdj"):
         tt = a[:D]
